@@ -3,6 +3,7 @@ CONSTANT MaxI = 8
 CONSTANT MaxK = 4
 CONSTANT MaxD = 2
 CONSTANT MaxS = 3
+CONSTANT EmitCases = FALSE
 CONSTANT Mutant = "pad_top_after_clamp"
 INVARIANT TypeOK
 INVARIANT ExactWhereClaimed
